@@ -69,11 +69,20 @@ def judge(res: Result, case: Dict[str, Any], vals: List[Any], typ, k: int, get_t
             except Exception as e:  # noqa: BLE001
                 res.violate(Violation(ID, "exception", f"shrink_traced_types:{arm}", dict(case, order=list(order)), f"shrink_traced_types raised {e!r}"))
                 return
-            for label, TT in (("arg", args.get("n")), ("return", ret), ("yield", yld)):
+            # the yield type as the tracer accumulates it: one call that yields the values one after the other
+            one_call = CallTrace(S.genfunc, {"n": types[order[0]]}, None, None)
+            for i in order:
+                one_call.add_yield_type(types[i])
+            try:
+                _a, _r, yld_acc = shrink_traced_types([one_call], k)
+            except Exception as e:  # noqa: BLE001
+                res.violate(Violation(ID, "exception", f"shrink_traced_types:{arm}", dict(case, order=list(order)), f"shrink_traced_types raised {e!r}"))
+                return
+            for label, TT in (("arg", args.get("n")), ("return", ret), ("yield", yld), ("yield-accumulated-in-one-call", yld_acc)):
                 if TT is None or any(not O.member(v, TT) for v in vals):
                     res.violate(Violation(ID, "nonmember", f"traces:{label}:{arm}", dict(case, order=list(order)), f"merged {label} type of the traces is {O.show(TT) if TT is not None else None}: not every value of {case['values']} is a member"))
                     return
-                if O.struct(TT) != ref[0]:
+                if label != "yield-accumulated-in-one-call" and O.struct(TT) != ref[0]:
                     res.violate(Violation(ID, "order", f"traces:{label}:{arm}", dict(case, order=list(order)), f"merged {label} type of the traces {O.show(TT)} differs from the direct merge {O.show(ref[1])}"))
                     return
 
